@@ -19,18 +19,19 @@ import (
 // C15 — label invalidation is complete, precise and loses nothing on failure (DESIGN §C15).
 
 type c15Cell struct {
-	Mode     string `json:"mode"`     // seq | conc
-	Deleters string `json:"deleters"` // SM | SY | SM+SY | SM+faulty | OF
-	NKeys    int    `json:"nkeys"`
-	Repeat   bool   `json:"repeat"`            // every AddLabels call is issued twice
-	Cumul    bool   `json:"cumul,omitempty"`   // labels are added with a growing list: AddLabels(k,l1); AddLabels(k,l1,l2); ...
-	Collide  bool   `json:"collide,omitempty"` // key 0 and key 1 have the same 64-bit hash
-	Reverse  bool   `json:"reverse"`           // registration order reversed
-	Names    int    `json:"names"`             // cache names (2: keys alternate between names, no fault injection)
-	Shard    int    `json:"shard"`             // incidence structures are split over NShards cells
-	NShards  int    `json:"nshards"`
-	Prog     int    `json:"prog,omitempty"` // conc: program index
-	Fail     int    `json:"fail,omitempty"` // conc: 1+index of the Delete call that fails during the concurrent phase (0 = none)
+	Mode      string `json:"mode"`     // seq | conc
+	Deleters  string `json:"deleters"` // SM | SY | SM+SY | SM+faulty | OF
+	NKeys     int    `json:"nkeys"`
+	Repeat    bool   `json:"repeat"`              // every AddLabels call is issued twice
+	Cumul     bool   `json:"cumul,omitempty"`     // labels are added with a growing list: AddLabels(k,l1); AddLabels(k,l1,l2); ...
+	Collide   bool   `json:"collide,omitempty"`   // key 0 and key 1 have the same 64-bit hash
+	LateCache bool   `json:"latecache,omitempty"` // the caches are registered with AddCache only AFTER the keys were labelled
+	Reverse   bool   `json:"reverse"`             // registration order reversed
+	Names     int    `json:"names"`               // cache names (2: keys alternate between names, no fault injection)
+	Shard     int    `json:"shard"`               // incidence structures are split over NShards cells
+	NShards   int    `json:"nshards"`
+	Prog      int    `json:"prog,omitempty"` // conc: program index
+	Fail      int    `json:"fail,omitempty"` // conc: 1+index of the Delete call that fails during the concurrent phase (0 = none)
 }
 
 func (c c15Cell) id() string { js, _ := json.Marshal(c); return string(js) }
@@ -56,6 +57,11 @@ func c15Cells(tier string) []Cell {
 
 		for sh := 0; sh < nsh; sh++ {
 			cells = append(cells, Cell{ID: c15Cell{Mode: "seq", Deleters: d, NKeys: nkeys, Cumul: true, Names: 1, Shard: sh, NShards: nsh}.id()})
+		}
+
+		// the application labels its keys before it registers the caches with the index
+		for sh := 0; sh < nsh; sh++ {
+			cells = append(cells, Cell{ID: c15Cell{Mode: "seq", Deleters: d, NKeys: nkeys, LateCache: true, Names: 1, Shard: sh, NShards: nsh}.id()})
 		}
 
 		// two of the keys collide in the 64-bit hash: the later write displaces the earlier entry in the hash-slot
@@ -105,6 +111,7 @@ type c15Env struct {
 	caches map[string][]backend // name -> caches
 	calls  int
 	failAt int
+	late   []func() // AddCache calls postponed until the keys have been labelled
 }
 
 func c15Name(i int) string { return fmt.Sprintf("name%d", i) }
@@ -139,7 +146,12 @@ func newC15(cc c15Cell) *c15Env {
 
 			var d cache.Deleter = deleterOf(b)
 			// every deleter counts its calls so that a fault can be placed at every position
-			e.idx.AddCache(name, faultyDeleter{inner: d, calls: &e.calls, failAt: &e.failAt})
+			reg := func() { e.idx.AddCache(name, faultyDeleter{inner: d, calls: &e.calls, failAt: &e.failAt}) }
+			if cc.LateCache {
+				e.late = append(e.late, reg)
+			} else {
+				reg()
+			}
 		}
 	}
 
@@ -300,6 +312,13 @@ func c15One(cc c15Cell, cs c15Case) (string, string, int, int) {
 	}
 
 	populate()
+
+	// labels may be registered before the cache they belong to is known to the index
+	for _, reg := range e.late {
+		reg()
+	}
+
+	e.late = nil
 
 	// what is there before the call under test (with colliding keys a later write has displaced an earlier entry)
 	presence := func() [][]bool {
@@ -763,7 +782,7 @@ func init() {
 	Register(&Prop{
 		ID: "C15", Title: "Label invalidation is complete, precise and loses nothing on failure",
 		Cells: c15Cells, Run: c15Run,
-		Rule: "(seq) every key->label-subset incidence over 3 (quick) / 4 (thorough) keys x 3 labels, optionally with repeated labelling, reversed or cumulative (growing label list) registration, two keys with the same 64-bit hash, and a second round of re-writing, re-labelling and invalidating on the same index, x every ordered label argument list of length <=2 / <=3 (duplicates included) " +
+		Rule: "(seq) every key->label-subset incidence over 3 (quick) / 4 (thorough) keys x 3 labels, optionally with repeated labelling, reversed or cumulative (growing label list) registration, two keys with the same 64-bit hash, caches registered only after the keys were labelled, and a second round of re-writing, re-labelling and invalidating on the same index, x every ordered label argument list of length <=2 / <=3 (duplicates included) " +
 			"x deleters {ShardedMap, SyncMap, ShardedMapOf, ShardedMap+SyncMap, two ShardedMaps} x a Delete failure injected at EVERY call position of the fault-free run (plus none), followed by a retry with the fault cleared; " +
 			"(conc) 2-3 threads of AddLabels / AddCache / InvalidateByLabels on a shared index, all schedules within the bound, then a final sweep: every key labelled before or during the run must be removable, counts must add up",
 		Assumptions: []string{
